@@ -374,6 +374,32 @@ CLAIMED['C20'] = dict(
     ref='4 C20, 9.2',
     note='click-history clauses are necessary conditions, not the '
          'behaviour')
+CLAIMED['C16'] = dict(
+    technique='formula agreement over the domain of rational functions '
+              '(canonical quotients of polynomials in S1 = sum x, S2 = sum '
+              'x*x and n, sqrt uninterpreted); partial evaluation of the '
+              'extreme-value update over the finite set of orderings; '
+              'constant folding of the median index forms',
+    text='Narrow (formula clauses only): one round of the item loop of '
+         'sequence_variables.statistics adds x, x*x and one value to its '
+         'accumulators, the square being computed before any accumulator '
+         'changes (a non-numeric value leaves them alone); mean, total, '
+         'variance-n, standard-deviation-n, variance and '
+         'standard-deviation are, as rational functions of S1, S2 and n, '
+         'the textbook definitions, the sample variants only under n > 1; '
+         'the running minimum / maximum are the order-theoretic extremes '
+         'for every ordering of the new value; the median is the middle '
+         'element for an odd count and the mean of the two middle values '
+         'for an even one, floor division being admitted only under an '
+         'integer test (this found a genuine defect, repaired by a fix: '
+         'commit); None is not recorded on the non-numeric path. Not '
+         'decided: the values themselves for run-time data (rounding, '
+         'user types that add / compare oddly, mixed numeric and '
+         'non-numeric sequences), the text of the "between a and b" '
+         'fallback, which statistics appear for non-numeric data.',
+    ref='9.2 (C16), 4 C16',
+    note='accumulator / value-list / count roles are derived from the keys '
+         'they are published under (total-, count-, min-, max-)')
 PENDING = {}
 # clauses added by later rounds (inserted before "Not decided" of the text)
 EXTRA_TEXT = {
@@ -454,13 +480,7 @@ EXTRA_TECH = {
     'C11': 'zone (difference-bound) abstract interpretation of opt() '
            'with ghost sums',
 }
-NA = {
-    'C16': 'numerical identities over run-time data (sums, means, n vs n-1, '
-           'medians of mixed types): no static argument in reach bounds '
-           'those values; the only structural clause (every statistic name '
-           'is dispatched and assigned) is checked under C10 and is far '
-           'from the property',
-}
+NA = {}
 ALL = ['C%02d' % i for i in range(1, 21)]
 
 
